@@ -17,7 +17,9 @@ package c16
 import (
 	"bytes"
 	"fmt"
+	"os"
 	"strings"
+	"time"
 
 	"verif/harness/internal/core"
 )
@@ -26,7 +28,11 @@ type prop struct {
 	corpus []corpusFile
 }
 
-func New() core.Prop { return &prop{} }
+func New() core.Prop {
+	reexecInPrivateDir()
+	silenceStderr()
+	return &prop{}
+}
 
 func (*prop) ID() string { return "C16" }
 
@@ -36,6 +42,14 @@ func (p *prop) Finish(s *core.Session) {
 
 func (p *prop) Run(line string) core.Outcome {
 	setupEnv()
+	if os.Getenv("C16_SLOW") != "" {
+		t0 := time.Now()
+		defer func() {
+			if d := time.Since(t0); d > 200*time.Millisecond {
+				fmt.Fprintf(origErr, "SLOW %v %s\n", d, clip(line, 3000))
+			}
+		}()
+	}
 	f := strings.Split(line, " ")
 	switch f[0] {
 	case "order":
